@@ -12,13 +12,23 @@ def Kind.storeFn : Kind → String
   | .burn .code => "oauthCodeStore" | .burn .reqObj => "authzRequestObjectStore" | .burn .vpNonce => "oauthNonceStore"
   | .burn .redirect => "userRedirectStore" | .mark .s2s => "s2sNonceStore" | .mark .jti => "useNonceOnceStore"
 
-/-- the session-store calls of each consumer, in source order (`:defer` = inside a defer statement) -/
-def Kind.apiCalls (k : Kind) : List String :=
-  match k with
-  | .burn .code => [k.storeFn ++ ".Delete:defer", k.storeFn ++ ".GetAndDelete"]
-  | .burn .vpNonce => [k.storeFn ++ ".Delete", k.storeFn ++ ".GetAndDelete"]
-  | .burn .reqObj | .burn .redirect => [k.storeFn ++ ".GetAndDelete"]
-  | .mark _ => [k.storeFn ++ ".PutIfAbsent"]
+structure ApiCall where
+  method : String
+  deferred : Bool := false
+  deriving DecidableEq, Repr
+
+/-- as the fact extractor prints a call: `accessor.Method`, `:defer` appended inside a defer statement -/
+def ApiCall.render (store : String) (c : ApiCall) : String :=
+  store ++ "." ++ c.method ++ (if c.deferred then ":defer" else "")
+
+/-- the session-store calls of each consumer, in source order -/
+def Kind.api : Kind → List ApiCall
+  | .burn .code => [⟨"Delete", true⟩, ⟨"GetAndDelete", false⟩]
+  | .burn .vpNonce => [⟨"Delete", false⟩, ⟨"GetAndDelete", false⟩]
+  | .burn .reqObj | .burn .redirect => [⟨"GetAndDelete", false⟩]
+  | .mark _ => [⟨"PutIfAbsent", false⟩]
+
+def Kind.apiCalls (k : Kind) : List String := k.api.map (ApiCall.render k.storeFn)
 
 /-- how a mark-as-used consumer uses its store, read off its call list -/
 def markShapeOf (store : String) (calls : List String) : Option MarkShape :=
@@ -51,5 +61,34 @@ def todayMem : Cfg := today false true
 def todayRedis : Cfg := today false false
 /-- the memcached back-end -/
 def todayMemcached : Cfg := today true false
+
+/-- the underlying store calls one session-store API call consists of -/
+def expandCall (cfg : Cfg) (k : Kind) (c : ApiCall) : List String :=
+  if c.method = "GetAndDelete" then (match cfg.gad with | .singleCall => ["getdel"] | _ => ["get", "del"])
+  else if c.method = "PutIfAbsent" then
+    (match k with
+     | .mark mk => (match cfg.mark mk with | .putIfAbsent => ["putabsent"] | _ => ["get", "set"])
+     | _ => ["?"])
+  else if c.method = "Get" then ["get"] else if c.method = "Put" then ["set"]
+  else if c.method = "Delete" then ["del"] else ["?"]
+
+/-- which underlying call a parked thread is about to make -/
+def Thread.nextOp (cfg : Cfg) : Thread → Option String
+  | .burn _ .atCall _ => some (if cfg.gad = .singleCall then "getdel" else "get")
+  | .burn _ (.atDel _) _ => some "del"
+  | .burn _ (.atBurn _) _ => some "del"
+  | .mark r .atCall _ => some (if cfg.mark r.kind = .putIfAbsent then "putabsent" else "get")
+  | .mark _ (.atPut _) _ => some "set"
+  | _ => none
+
+/-- the underlying calls a request makes when it runs alone (thread 0) to completion -/
+def soloOps (cfg : Cfg) : Nat → World → List String
+  | 0, _ => []
+  | fuel + 1, w =>
+    match w.ths[0]? with
+    | none => []
+    | some t =>
+      if enabled w 0 then (match t.nextOp cfg with | some o => [o] | none => []) ++ soloOps cfg fuel (stepW cfg w 0)
+      else []
 
 end Nuts.C05
